@@ -70,6 +70,8 @@ def items():
            contract="ensures type_assertion_id(r) == type_assertion_id(*type_assertion),"),
         Fn(EX, "format_binop", mode="stub", contract="ensures binop_id(r) == binop_id(*binop),"),
         Fn(EX, "format_unop", mode="stub", contract="ensures unop_id(r) == unop_id(*unop),"),
+        Fn(EX, "removed_parentheses_comments", mode="stub",
+           note="two iterator-adapter chains collecting the comments around both parentheses of a removed pair (C03: bounded witnesses only)"),
         Fn(EX, "check_excess_parentheses", ret="b", contract="""
     requires wf(skel(*internal_expression)),
     ensures
@@ -92,7 +94,7 @@ def items():
     requires wf(skel(*expression)),
     ensures expr_post(*expression, r, ExpressionContext::Standard), //# C05.format_expression
             begins_with_bracket_string(r) ==> may_begin_with_bracket_string(*expression), //# C01.bracket_string_visible
-    decreases expression, 1int,
+    decreases expression, 5int,
 """),
         Fn(EX, "format_expression_internal", contract="""
     requires wf(skel(*expression)),
@@ -103,28 +105,8 @@ def items():
         forall|p: Pos| #![trigger gamma(context, p)] #![trigger fits(skel(r), p)] gamma(context, p) && fits(skel(*expression), p) ==> fits(skel(r), p), //# C05.single_line.fits
         stays_closed(*expression, r, context), //# C05.single_line.closed
         begins_with_bracket_string(r) ==> may_begin_with_bracket_string(*expression), //# C01.bracket_string_visible_internal
-    decreases expression, 0int,
+    decreases expression, (if *expression is BinaryOperator { 4int } else { 0int }),
 """, edits=[
-            Hole("""let leading_comments = start_parens
-                    .leading_trivia()
-                    .filter(|token| trivia_util::trivia_is_comment(token))
-                    .flat_map(|x| {
-                        vec![
-                            create_indent_trivia(ctx, shape),
-                            x.to_owned(),
-                            create_newline_trivia(ctx),
-                        ]
-                    })
-                    // .chain(std::iter::once(create_indent_trivia(ctx, shape)))
-                    .collect();""", "let leading_comments: Vec<Token> = verif::hole_vec_token();", why="iterator-adapter chain with closures"),
-            Hole("""let trailing_comments = end_parens
-                    .trailing_trivia()
-                    .filter(|token| trivia_util::trivia_is_comment(token))
-                    .flat_map(|x| {
-                        // Prepend a single space beforehand
-                        vec![Token::new(TokenType::spaces(1)), x.to_owned()]
-                    })
-                    .collect();""", "let trailing_comments: Vec<Token> = verif::hole_vec_token();", why="iterator-adapter chain with closures"),
             Hole("strip_leading_trivia(&unop).to_string().len()", "verif::hole_usize()", why="Display width of a node"),
             Hole("binop.to_string().len()", "verif::hole_usize()", why="Display width of a node"),
         ]),
@@ -132,9 +114,11 @@ def items():
     its += hanging_items()
     return its
 
-def post(prefix, e, ctx, extra=""):
+def post(prefix, e, ctx, extra="", bs=False):
+    bsl = f"        begins_with_bracket_string(r) ==> may_begin_with_bracket_string({e}), //# C01.bracket_string_visible_hanging\n" if bs else ""
     return f"""
     ensures
+{bsl}
         same_tree({e}, r), //# {prefix}.erase
         wf(skel(r)), //# {prefix}.wf
         no_double_minus(skel(r)), //# {prefix}.no_double_minus
@@ -165,14 +149,14 @@ impl ToRange for Expression { #[verifier::external_body] fn to_range(&self) -> (
         Fn(EX, "hang_binop_expression", contract="""
     requires wf(skel(expression)),""" + post("C05.hang_binop", "expression", "expression_context", """
     decreases expression, 3int,
-"""), edits=[
+""", bs=True), edits=[
             Hole('const SPACE_LEN: usize = " ".len();', "let SPACE_LEN: usize = verif::hole_usize();", why="str::len in a const; value only feeds widths"),
             Hole("strip_trivia(&new_binop).to_string().len()", W, why="Display width of a node"),
         ]),
         Fn(EX, "format_hanging_expression_", contract="""
     requires wf(skel(*expression)),""" + post("C05.hanging", "*expression", "expression_context", """
     decreases expression, 2int,
-"""), edits=[
+""", bs=True), edits=[
             Hole("let expression_str = formatted_expression.to_string();", "let expression_str_len: usize = verif::hole_usize();", why="Display width of a node"),
             Hole("2 + expression_str.len()", "expression_str_len", why="Display width of a node"),
             Hole("strip_leading_trivia(&unop).to_string().len()", W, why="Display width of a node"),
@@ -239,6 +223,7 @@ LABELS = {
     "C05.prefix_keeps_parens": dict(props=["C05", "C02"], text="format_prefix (both layout paths): a parenthesised prefix expression keeps its parentheses; operator tree preserved"),
     "C01.bracket_string_visible": dict(props=["C01"], text="format_expression: if the formatted expression begins with a long-bracket string token, the input was recognisable as such by is_brackets_string (through parentheses, type assertions, left operands)"),
     "C01.bracket_string_visible_internal": dict(props=["C01"], text="same, for format_expression_internal (induction)"),
+    "C01.bracket_string_visible_hanging": dict(props=["C01"], text="same, for the hanging formatters format_hanging_expression_ / hang_binop_expression, which format_expression_internal falls back to when a line comment sits at a binary operator"),
     "C01.is_brackets_string": dict(props=["C01", "C04"], text="is_brackets_string is true exactly for expressions that will print with a leading long-bracket string (any level: `[[`, `[=[`, ...)"),
     "C01.index_bracket_string": dict(props=["C01", "C04", "C02"], text="format_index: a bracketed key that prints with a leading `[[`/`[=[` is separated from `[` by whitespace; the key's operator tree is preserved"),
     "C05.format_expression": dict(props=["C05", "C02", "C01"], text="format_expression: operator tree preserved modulo redundant parentheses, output re-parse-stable, no `--`"),
